@@ -256,7 +256,7 @@ func genC17(r *rng, tier string, res *Result) {
 	for i := 0; i < n; i++ {
 		g := newG(r.fork(), fmt.Sprintf("C17/%d", i))
 		g.dumpEvery = 0
-		g.params([]int{700, 2048, 1 << 16}[g.r.intn(3)], 512, []float32{0.0001, 0.3}[g.r.intn(2)], g.r.chance(25))
+		g.params([]int{700, 2048, 1 << 16}[g.r.intn(3)], []int{512, 512, 560, 650}[g.r.intn(4)], []float32{0.0001, 0.3}[g.r.intn(2)], g.r.chance(25))
 		g.open()
 		g.keys = g.randomKeys(12)
 		if i%3 == 0 {
@@ -301,11 +301,13 @@ func genC17(r *rng, tier string, res *Result) {
 						best, bestSeq = nm, seq
 					}
 				}
-				id, seq, _ := pogreb.VerifParseSegmentName(best)
-				rec := pogreb.VerifEncodeRecord(g.r.bytes(3), g.r.bytes(g.r.intn(800)), false)
 				g.do("setlock 1")
-				g.do(fmt.Sprintf("appendraw %d %d %s", id, seq, interp.Hex(rec[:1+g.r.intn(len(rec)-1)])))
-				g.c.tag("unclean_with_torn_tail")
+				if best != "" { // (compaction may have removed every segment: nothing to tear then)
+					id, seq, _ := pogreb.VerifParseSegmentName(best)
+					rec := pogreb.VerifEncodeRecord(g.r.bytes(3), g.r.bytes(g.r.intn(800)), false)
+					g.do(fmt.Sprintf("appendraw %d %d %s", id, seq, interp.Hex(rec[:1+g.r.intn(len(rec)-1)])))
+					g.c.tag("unclean_with_torn_tail")
+				}
 			}
 			g.open()
 			g.checkAll()
